@@ -1,10 +1,16 @@
 (* C16 -- row-major index arithmetic: ravel / indices / unravel (shared by the Kronecker-chain and
    Pauli-index proofs). *)
 From Coq Require Import ZArith List Arith Lia Bool Permutation.
-From FF Require Import Model.Tensor.
+From FF Require Import Model.Tensor Spec.Kron.
 Import ListNotations.
 
 Definition inb (a s : list nat) : Prop := Forall2 (fun i d => i < d) a s.
+
+Lemma flat_map_ext_in {A B} (f g : A -> list B) l : (forall x, In x l -> f x = g x) -> flat_map f l = flat_map g l.
+Proof.
+  induction l as [|a l IH]; simpl; intros H; auto.
+  rewrite (H a (or_introl eq_refl)). rewrite IH by (intros; apply H; right; assumption). reflexivity.
+Qed.
 
 Lemma prodn_app a b : prodn (a ++ b) = prodn a * prodn b.
 Proof. induction a; simpl; [lia|]. rewrite IHa. lia. Qed.
@@ -86,12 +92,6 @@ Proof.
 Qed.
 
 (* ---- unravel: the multi-index of a flat index *)
-Fixpoint unravel (s : list nat) (k : nat) : list nat :=
-  match s with
-  | [] => []
-  | d :: s' => (k / prodn s') :: unravel s' (k mod prodn s')
-  end.
-
 Lemma unravel_ravel s : forall a, inb a s -> unravel s (ravel s a) = a.
 Proof.
   induction s as [|d s IH]; intros a H; inversion H as [|i d' a' s' Hi Ha]; subst; simpl; auto.
